@@ -874,11 +874,16 @@ def _extent(kids):
 
 
 # ------------------------------------------------------------------------ normalising lark results
-def norm_tree(t, named=None, pos=True):
-    """lark Tree/Token/None -> shaped tuple.  named: set of named terminal names (others compare by value only)."""
+def norm_tree(t, named=None, pos=True, _memo=None):
+    """lark Tree/Token/None -> shaped tuple.  named: set of named terminal names (others compare by value only).
+    Shared sub-trees (explicit-ambiguity results are DAGs) are normalised once and stay shared."""
     if t is None: return None
+    if _memo is None: _memo = {}
     if hasattr(t, 'children') and hasattr(t, 'data'):
-        return ('N', str(t.data), tuple(norm_tree(c, named, pos) for c in t.children))
+        got = _memo.get(id(t))
+        if got is None:
+            got = _memo[id(t)] = ('N', str(t.data), tuple(norm_tree(c, named, pos, _memo) for c in t.children))
+        return got
     if hasattr(t, 'type'):
         ty = t.type
         if named is not None and ty not in named: ty = None
